@@ -13,12 +13,11 @@
 EXTENDS OrderBig, Batch
 
 Mat  == JsonDeserialize(IOEnv.MAT_FILE)
-Mat2 == JsonDeserialize(IOEnv.MAT2_FILE)      \* a second, small matrix (ints no double can hold), rows carry mat = 2
 Pick(S) == CHOOSE e \in S : TRUE
 Show2(name, w) == name \o ":" \o ToString(w[1]) \o "," \o ToString(w[2])
 
-RowVerdictOf(mat, i) ==
-    LET vals == mat.vals  M == mat.M
+RowVerdict(i) ==
+    LET vals == Mat.vals  M == Mat.M
         raised == RaisedRow(vals, M, i)
         anti   == NotAntisymRow(vals, M, i)
         pinned == NotPinnedRow(vals, M, i)
@@ -31,7 +30,6 @@ RowVerdictOf(mat, i) ==
         ELSE IF pinbig # {} THEN Show2("cmp_pinned_big", Pick(pinbig))
         ELSE IF trans # {} THEN Show2("cmp_not_transitive", Pick(trans))
         ELSE ""
-RowVerdict(o) == IF "mat" \in DOMAIN o /\ o.mat = 2 THEN RowVerdictOf(Mat2, o.i) ELSE RowVerdictOf(Mat, o.i)
 
 \* lexicographic sign of a sequence of per-column comparisons
 RECURSIVE Lex(_, _)
@@ -53,7 +51,7 @@ OrderedBy(cc)   == \A p \in 1..Len(cc) : Lex(cc[p], 1) \in {-1, 0}
 StableBy(o, cc) == \A p \in 1..Len(cc) : Lex(cc[p], 1) = 0 => Pay(o.out[p].id) < Pay(o.out[p + 1].id)
 
 Verdict(o) ==
-    CASE o.kind = "cmprow" -> RowVerdict(o)
+    CASE o.kind = "cmprow" -> RowVerdict(o.i)
       [] o.kind = "sort" ->
            IF o.raised # "" THEN "sort_raises"
            ELSE IF ~IsPerm(o.xs, o.out) THEN "sort_not_a_permutation"
